@@ -35,7 +35,10 @@ Reply(p) == CASE p.op = "read"  -> RdReply(blk, p.a)
               [] p.op = "size"  -> SizeReply(blk)
 
 \* internal: operation of client c takes effect now
+\* (just-in-time: a linearization point can always be delayed until right
+\*  before the next response event, so Lin is enabled only then)
 Lin == \E c \in DOMAIN pend :
+         /\ Is("res")
          /\ pend[c].st = "inv"
          /\ pend' = [pend EXCEPT ![c].st = "lin", ![c].rep = Reply(pend[c])]
          /\ blk' = IF pend[c].op = "write" THEN WrBlocks(blk, pend[c].a, pend[c].v, "ok") ELSE blk
